@@ -539,6 +539,9 @@ def A3_A5_shared(rep, flow: Flow, entry_fqs):
             continue
         bad = False
         for pi, r in enumerate(rets):
+            if isinstance(r.value, Sym) and r.value.tag in ("call", "mcall", "classattr") and not _evidently_immutable(f) \
+                    and not _fresh_callee(flow, r.value, set()):
+                raise AnalysisError(f"{f.module.rel} {f.qualname} return path #{pi}: the returned value {fmt(vkey(r.value))[:120]} comes out of a callee the interpreter does not model: whether it shares mutable state with a cache cannot be decided")
             for (path, o) in shared_mutables(r, r.value):
                 bad = True
                 rep.finding("A3", f"{fq}:{path}:{o.origin[1]}", f"{f.module.rel} {f.qualname} return path #{pi}: `{path}` is a {o.kind} shared with {o.origin[1]} (allocated at {o.site}); a caller mutating it changes what later calls return")
@@ -551,25 +554,32 @@ def A3_A5_shared(rep, flow: Flow, entry_fqs):
                     bad = True
                 if origin[0] != "shared":
                     continue
-                if kind == "dict" and op in ("setitem", "setdefault"):
-                    continue   # cache store: checked by A1/A2 below
+                if kind == "dict" and op in ("setitem", "setdefault", "pop", "popitem", "clear", "move_to_end", "del[]"):
+                    continue   # cache store (checked by A2) or eviction (changes no result)
                 rep.finding("A5", f"{ffq}:{stmt}", f"{where}: in-place operation `{op}` on a {kind} shared with {origin[1]} [{stmt}]")
                 bad = True
             for ev in r.events:
                 if ev[0] == "store-shared":
                     _, what, key, val, where, ffq = ev
                     kk = vkey(key)
-                    kparams = {x[1] for x in _leaves(kk, "param")}
-                    vparams = set()
-                    for x in _value_params(r, val):
-                        vparams.add(x)
-                    missing = vparams - kparams
+                    comps = key_components(kk)
+                    cores = {_strip_faithful(c) for c in comps} | set(comps)
+                    unc = set()
+                    allp = set()
+                    for vk in _value_keys(r, val):
+                        uncovered_params(vk, cores, unc, allp)
+                    unfaithful = [c for c in comps if _unfaithful(c)]
+                    missing = sorted(unc)
+                    vparams = allp
                     seps_ok = _separated(kk)
-                    # the stored value must be produced from the same key (loader): its file provenance = the key
                     prov = _value_prov(r, val)
-                    loader_ok = all(p == ("file", kk) for p in prov) if (prov and isinstance(kk, tuple) and kk and kk[0] == "fstr") else True
+                    loader_ok = True
+                    if unfaithful and not missing:
+                        rep.finding("A2", f"{ffq}:{what}:unfaithful", f"{where}: cache key component {fmt(unfaithful[0])} does not determine the object it stands for (e.g. tobytes(order='A') serialises C- and Fortran-ordered arrays differently, so two different matrices can share one key)")
+                        bad = True
+                        continue
                     if missing:
-                        rep.finding("A2", f"{ffq}:{what}:key", f"{where}: value cached in {what} depends on {sorted(missing)} which the key {fmt(kk)} does not contain: a later call with other arguments gets this value")
+                        rep.finding("A2", f"{ffq}:{what}:key", f"{where}: the value cached in {what} depends on {missing}, which the key {fmt(kk)[:160]} does not contain as a component of its own (a number READ FROM a table does not identify the table): a later call with other arguments gets this value")
                         bad = True
                     elif not seps_ok:
                         rep.finding("A2", f"{ffq}:{what}:sep", f"{where}: cache key {fmt(kk)} has adjacent variable parts without a literal separator (not injective)")
@@ -582,6 +592,192 @@ def A3_A5_shared(rep, flow: Flow, entry_fqs):
             rep.ok("A3", len(rets), nontrivial=fq, sample=f"{fq}: {len(rets)} return path(s), no shared mutable reachable from the result")
             rep.ok("A5", 1, nontrivial=fq)
             rep.ok("A4i", 1, nontrivial=fq)
+
+
+PATH_HEADS = ("param", "attr")
+
+
+def _is_path(k):
+    """a parameter or an attribute chain rooted at a parameter"""
+    while isinstance(k, tuple) and k and k[0] == "attr":
+        k = k[1]
+    return isinstance(k, tuple) and len(k) == 2 and k[0] == "param"
+
+
+def dep_terms(k, out=None):
+    """maximal parameter-rooted access paths a symbolic value depends on.  A value derived from the TEXT of a file
+    depends on the parts of the file's NAME (what the text says is determined by which file it is)"""
+    out = out if out is not None else set()
+    if isinstance(k, tuple) and k:
+        if _is_path(k):
+            out.add(k)
+        elif k[0] == "filetext":
+            dep_terms(k[1], out)
+        else:
+            for x in k[1:]:
+                dep_terms(x, out)
+    return out
+
+
+FAITHFUL_WRAPPERS = ("str", "int", "fmt", "m:tobytes", "m:tostring", "m:copy", "m:astype", "builtin:tuple", "builtin:bytes", "call", "mcall")
+
+
+def key_components(kk):
+    if isinstance(kk, tuple) and kk and kk[0] in ("tuple", "fstr"):
+        out = []
+        for x in kk[1:]:
+            out += key_components(x)
+        return out
+    return [kk]
+
+
+def _method_shape(c):
+    """(receiver, method name, argument keys) of a method-call key in any of its spellings, else None"""
+    if isinstance(c, tuple) and c and isinstance(c[0], str):
+        if c[0].startswith("m:") and len(c) >= 2:
+            return c[1], c[0][2:], c[2:]
+        if c[0] == "call" and len(c) >= 2 and isinstance(c[1], tuple) and c[1] and c[1][0] in ("attr", "bound") and len(c[1]) == 3:
+            return c[1][1], c[1][2], c[2:]
+    return None
+
+
+def _strip_faithful(c):
+    ms = _method_shape(c)
+    if ms is not None and ms[1] in ("tobytes", "tostring", "copy", "tolist") and not _unfaithful(c):
+        return _strip_faithful(ms[0])
+    return _strip_faithful_old(c)
+
+
+def _strip_faithful_old(c):
+    """remove encodings that keep the identity of the encoded object"""
+    while isinstance(c, tuple) and c and isinstance(c[0], str):
+        if c[0] in ("str", "int", "fmt") and len(c) == 2:
+            c = c[1]
+        elif c[0] in ("m:tobytes", "m:tostring", "m:copy") and len(c) == 2:
+            c = c[1]
+        elif c[0] == "call" and len(c) >= 3 and isinstance(c[1], tuple) and c[1] and c[1][0] == "bound" and c[1][2] in ("tobytes", "tostring", "copy") and len(c) == 2:
+            c = c[1][1]
+        elif c[0] == "call" and len(c) == 2 and isinstance(c[1], tuple) and c[1] and c[1][0] == "bound" and c[1][2] in ("tobytes", "tostring", "copy"):
+            c = c[1][1]
+        else:
+            break
+    return c
+
+
+def _unfaithful(c):
+    """encodings known to lose the identity of the encoded object"""
+    ms = _method_shape(c)
+    if ms is not None and ms[1] == "tobytes" and ms[2]:
+        return not all(x == ("const", "str", "C") for x in ms[2])
+    if isinstance(c, tuple) and c:
+        if c[0] in ("m:tobytes",) and len(c) > 2:
+            return not all(x == ("const", "str", "C") for x in c[2:])
+        if c[0] == "call" and isinstance(c[1], tuple) and c[1] and c[1][0] == "bound" and c[1][2] == "tobytes" and len(c) > 2:
+            return not all(x == ("const", "str", "C") for x in c[2:])
+    return False
+
+
+def covers(c, t):
+    """does key component c carry the dependency term t itself (possibly in a faithful encoding)?"""
+    core = _strip_faithful(c)
+    if core == t:
+        return True
+    # a whole-parameter dependency is taken as covered by any component rooted at that parameter (finer: undecidable)
+    if isinstance(t, tuple) and t[0] == "param" and _is_path(core):
+        root = core
+        while root[0] == "attr":
+            root = root[1]
+        return root == t
+    # an attribute path is covered by the whole parameter
+    if _is_path(t) and isinstance(core, tuple) and core[0] == "param":
+        root = t
+        while root[0] == "attr":
+            root = root[1]
+        return root == core
+    return False
+
+
+def uncovered_params(k, cores, unc, allp):
+    """every occurrence of a parameter in a cached value must lie inside an occurrence of one of the key's
+    components (a component stands for itself); what a file's text says is determined by the file's name"""
+    if not isinstance(k, tuple) or not k:
+        return
+    if k in cores:
+        for p in _leaves(k, "param"):
+            allp.add(p[1])
+        return
+    if k[0] == "param" and len(k) == 2:
+        unc.add(k[1])
+        allp.add(k[1])
+        return
+    if k[0] == "filetext":
+        uncovered_params(k[1], cores, unc, allp)
+        return
+    for x in k[1:]:
+        uncovered_params(x, cores, unc, allp)
+
+
+def _value_keys(r, v, seen=None, depth=0):
+    """symbolic keys of every scalar reachable from a stored value (fields, elements, circuit terms)"""
+    seen = seen if seen is not None else set()
+    if isinstance(v, Alt):
+        for x in v.vals:
+            yield from _value_keys(r, x, seen, depth)
+    elif isinstance(v, Ref):
+        if v.oid in seen or depth > 6:
+            return
+        seen.add(v.oid)
+        o = r.heap[v.oid]
+        for x in list(o.fields.values()) + ([o.elem] if o.elem is not None else []) + list(o.items or []):
+            yield from _value_keys(r, x, seen, depth + 1)
+        if o.kind == "circuit":
+            for (leaf, *_r) in t_leaves(o.term):
+                if leaf[0] == "tgate":
+                    for ft in leaf[3]:
+                        yield ("filetext", ft[1])
+                elif leaf[0] == "param":
+                    yield ("param", leaf[1])
+                elif leaf[0] == "mapped":
+                    yield leaf[2]
+    elif isinstance(v, Sym):
+        yield vkey(v)
+
+
+def _fresh_callee(flow, v, seen):
+    """the opaque value is the result of a repository function all of whose return paths hand out objects
+    allocated in that very call (nothing shared, nothing passed in)"""
+    if not (isinstance(v, Sym) and v.tag == "call" and v.args and isinstance(v.args[0], str)):
+        return False
+    fq = v.args[0]
+    if fq in seen:
+        return True
+    seen.add(fq)
+    try:
+        g = flow.prog.func(fq)
+        rets = [r for r in flow.paths(fq) if r.kind == "return"]
+    except (KeyError, AnalysisError):
+        return False
+    if g is None or not rets:
+        return False
+    for r in rets:
+        if isinstance(r.value, Const):
+            continue
+        if isinstance(r.value, Sym):
+            if _evidently_immutable(g) or _fresh_callee(flow, r.value, seen):
+                continue
+            return False
+        if not isinstance(r.value, Ref):
+            return False
+        if r.heap[r.value.oid].origin[0] != "fresh" or any(True for _ in shared_mutables(r, r.value)):
+            return False
+    return True
+
+
+def _evidently_immutable(f):
+    if f.node.returns is None:
+        return False
+    a = ast.unparse(f.node.returns).strip("'\"")
+    return a.split("[")[0].split(".")[-1] in ("int", "str", "bool", "float", "bytes", "None", "complex")
 
 
 def _leaves(k, tag, out=None):
